@@ -614,17 +614,6 @@ func (s *verifStores) close() { os.RemoveAll(s.dir) }
 
 // ---------------------------------------------------------------- misc
 
-func verifErrStr(err error) string {
-	if err == nil {
-		return "ok"
-	}
-	s := err.Error()
-	if len(s) > 160 {
-		s = s[:160] + "..."
-	}
-	return "err(" + s + ")"
-}
-
 func verifSortedKeys(m map[string]bool) []string {
 	ks := make([]string, 0, len(m))
 	for k := range m {
